@@ -178,6 +178,15 @@ def build_model(cfg, faults=(), allow_first=False, keep_log=True):
         if shp != 'sphere':
             ar_ = pp.get('ar', 1.0)
             m.setPrecipitateShape(shp, phase=p, ratio=(lambda R: 1.5 * (np.asarray(R, dtype=float) / 1e-9) ** 1.1) if ar_ == 'fn' else ar_)
+        if pp.get('strain'):
+            # elastic strain energy of the precipitate (ellipsoidal inclusion); optionally the aspect ratio follows from it
+            from kawin.precipitation import StrainEnergy
+            st = pp['strain']
+            se = StrainEnergy()
+            se.setEigenstrain(list(st['eig']))
+            se.setModuli(G=st['G'], nu=st['nu'])
+            se.setShape('ellipsoid')
+            m.setStrainEnergy(se, phase=p, calculateAspectRatio=bool(st.get('calcAR', False)))
         if not pp.get('infDiff', True):
             m.setInfinitePrecipitateDiffusivity(False, phase=p)
         if pp.get('parents'):
